@@ -51,18 +51,19 @@ type c25Handle struct {
 }
 
 type c25Rec struct {
-	mu      sync.Mutex
-	evs     []vfRec
-	cm      any // cache manager of this execution
-	noop    bool
-	fid     map[*fsFile]int
-	files   []*fsFile
-	greq    map[uint64]int
-	pathID  map[string]int
-	reqPath []string // by request id
-	handles []*c25Handle
-	evicted []int
-	lastRd  [2]int
+	mu       sync.Mutex
+	evs      []vfRec
+	cm       any // cache manager of this execution
+	noop     bool
+	fid      map[*fsFile]int
+	files    []*fsFile
+	greq     map[uint64]int
+	pathID   map[string]int
+	reqPath  []string // by request id
+	handles  []*c25Handle
+	evicted  []int
+	lastRd   [2]int
+	cleaners int
 	closedSeen,
 	closedEmitted,
 	osMode bool
@@ -658,6 +659,7 @@ func c25Setup(t *testing.T, rng *rand.Rand, trNo int, cfg c25Cfg, baseDir string
 		}
 	}
 	rec.fsys = fsys
+	rec.cleaners = c25Goroutines("handleCleanCache") // cleaners of handlers that do not belong to this test
 	VerifHook = rec.hook
 	inner := fsys.NewRequestHandler()
 	// the handler the drivers use: registers the request with the calling goroutine first
@@ -869,7 +871,7 @@ func c25Goroutines(subs ...string) int {
 // handle that is still open stays open.
 func c25Finish(rec *c25Rec, cfg c25Cfg, tw *vfTraceWriter, trNo int, root string, t0 time.Time, bodyErr *atomic.Value) c25Result {
 	deadline := time.Now().Add(120 * time.Second)
-	for c25Goroutines("handleCleanCache") > 0 {
+	for c25Goroutines("handleCleanCache") > rec.cleaners {
 		if time.Now().After(deadline) {
 			vfInfra("a cache cleaner goroutine is still running 120s after its manager was closed")
 			break
